@@ -710,8 +710,9 @@ class NDNApp:
         name = enc.Name.normalize(name)
 
         def decorator(func: IntHandler):
-            self._autoreg_routes.append(name)
+            # Attach first: a refused (duplicated) route must not be registered a second time on every connection
             self.attach_handler(name, func, validator)
+            self._autoreg_routes.append(name)
             if self.face.running:
                 aio.create_task(self.register(name))
             return func
